@@ -7,6 +7,12 @@ ROOT = os.path.dirname(os.path.dirname(os.path.abspath(__file__)))
 ALL = ["C%02d" % i for i in range(1, 21)]
 
 CHECKS = {
+    "C05": dict(
+        technique="Lean 4 composition theorems over the FSM bookkeeping model (C02) for several nodes whose committed logs are prefixes of one log, for every fault schedule per node; fault-schedule runs on an in-process single node (real raft, LevelDB, snapshots, HTTP handlers) and on a three-node network of real robustirc processes (internal/localnet) with SIGKILL, restart, snapshot and leader kill",
+        text="Proved: whatever schedule of kills/restarts, snapshots, failed snapshot writes and restores a node goes through, its state is the replay of the prefix of the network log it has committed (C05_node_is_replay); an acknowledged command stays in the state through every continuation (C05_acked_never_lost), exactly once (C05_exactly_once_in_state); of any two nodes one has applied a prefix of the other (same order everywhere); two nodes hold the same output batches wherever neither has compacted, and only output older than the session horizon is ever compacted; the client side is C04's exactly-once theorem and C10's dedupe theorem. Assumed, not proved: raft's log matching (the nodes' commits are prefixes of one log). Every run executes generated fault schedules with posting/retrying clients on the in-process node and on three real processes and checks: acknowledged => delivered exactly once, per-sender order, identical sequences on all nodes.",
+        design_ref="DESIGN.md §4 C05, §10",
+        note="Trusts: Lean kernel; hashicorp/raft safety (hypothesis of the theorems); LevelDB durability; the free interpretation of the replicated state is connected to the real IRC state by C02's replay-digest runs; the run samples fault schedules, it does not enumerate them.",
+    ),
     "C12": dict(
         technique="Lean 4 theorems characterising, for every client handler of the model and lifted to whole entries and histories, the exact recipient set of every output line (iff statements over the membership relation) and the prefix it carries (identity invariant PInv preserved by all handlers); reference monitor over the real code's outputs; correspondence of outputs and recipients between the real ProcessMessage and the model",
         text="Machine-checked proof that in every reachable state: a channel PRIVMSG/NOTICE is delivered to exactly the other members of that channel (C12_privmsg, C12_privmsg_no_eavesdrop, C12_privmsg_channel_delivered), a private one only to the session owning the target nickname, numeric replies only to the causing session, ERROR only to the closed session, JOIN/PART/KICK/TOPIC/MODE/INVITE notifications to exactly the members of that channel (+ services links), NICK/QUIT/KILL to exactly the sessions sharing a channel with the subject; every relayed line carries nick!user@robust/0x<session id> of the acting session, which no other registered client can carry (C12_sender_identity, C12_no_impersonation); lifted to applyEntry and to every history (C12_entry_client, C12_history). Recipient sets of the services handlers other than PRIVMSG are not classified (partial). On every run the real code's outputs (Data and InterestingFor of every message) are compared with the model's on generated histories, and an independent reference monitor driven by the announced JOIN/PART/KICK/QUIT/NICK events checks the real recipients.",
